@@ -412,16 +412,25 @@ def doc_main(pid, *, assumptions, rule, mc, populations, nontrivial=None, sympto
     if a.replay_case:
         case = a.replay_case['case']
         pop = next((p for p in populations if p[0] in (case.get('tags') or [])), populations[0])
-        s = pop[1](case['seed'], **pop[4])
+        kw0 = {k: v for k, v in pop[4].items() if k != '_fixed'}
+        s = pop[1](case['seed'], **kw0)
+        if pop[4].get('_fixed'):
+            s['case_id'] = f"{pop[0]}:{case['seed']}"
         s['tags'] = list(s.get('tags', [])) + [pop[0]]
         sess = [s]
     else:
         for k, (label, fn, nq, nt, kw) in enumerate(populations):
             n = nq if quick else nt
-            seeds = [a.seed * 1000003 + k * 100000007 + i for i in range(n)]
+            kw = dict(kw)
+            fixed = kw.pop('_fixed', False)
+            # explored populations are a FIXED corpus (independent of VERIF_SEED; quick is a prefix of thorough): their failing
+            # cases are listed one by one in known_findings.json
+            seeds = [(777000000 + k * 1000003 + i) if fixed else (a.seed * 1000003 + k * 100000007 + i) for i in range(n)]
             part = docs.build_sessions(fn, seeds, **kw)
             for s in part:
                 s['tags'] = list(s.get('tags', [])) + [label]
+                if fixed:
+                    s['case_id'] = f"{label}:{s['seed']}"
             sess += part
             run.note('population_' + label, n)
         docs.selftest_session(next((s for s in sess if len(s['log']) > 8), sess[0]))
